@@ -20,7 +20,7 @@ RULE = (
     "heavy hitters; log8/log16 with small max_count) with adds and merges whose sums land within +-3 of the ceiling from below and beyond, "
     "repeated after saturation; log draws planted as 0.0 (always advance) or 1-2^-53 (never). Oracle after every step: no count-min estimate of "
     "any universe key decreases; an estimate at the ceiling stays at the ceiling; a saturated log estimate decodes to max_count (1e-6); a "
-    "heavy-hitter key that is alone in its cell in some row has hh[key] == min(true, 2^32-1) and never decreases; n_added never decreases. "
+    "heavy-hitter key that is alone in its cell in some row has hh[key] == min(true, 2^32-1) and never decreases; an add with a multiplicity of 2^63-1 .. 2^64-1 on a log sketch (max_count <= 10^6) leaves the key's smallest counter at the ceiling. "
     "Non-trivial: a counter within 3 of its ceiling is touched, or an accepted configuration with non-default num_reserved. Distinct = "
     "distinct configuration / distinct (configuration, step list)."
 )
@@ -139,6 +139,9 @@ class CeilingChecker:
             if old is not None and q < old:
                 raise Violation(f"{kind} sketch {i}: estimate of {k!r} fell {old} -> {q} after {step['op']} {step.get('v', '')}", "estimate-decreased")
             c = min_counter(sk, w.cfg, k)
+            if kind != "linear" and step["op"] == "add" and step["i"] == i and step["k"] == k and step.get("v", 1) >= 2**62 and c != umax:
+                # ~max_count <= 10^6 expected unit steps reach the ceiling; 2^62 steps fail to with probability < 1e-100
+                raise Violation(f"{kind} sketch {i}: add({k!r}, {step['v']}) left the smallest counter at {c}, not at the ceiling {umax}", "huge-add-not-saturated")
             if c >= umax - 3:
                 self.nt.add("near_ceiling")
             if c == umax:
@@ -222,7 +225,7 @@ def _shard(arg):
 
     M = machines.make_machine(
         "C18Machine", CeilingChecker, rec, holder, SELF_MERGE=True, CFG=CFG, N=2, NGRAM=False, MAXKEY=6, DRAWS=None,
-        add=add, update_dict=update_dict, update_list=update_list,
+        add=add, update_dict=update_dict, update_list=update_list, add_huge_log=machines.huge_log_rule(),
     )
     common.run_machine(M, common.derive_seed(seed, "C18", shard), n_examples, steps, holder, rec, retry=lambda c_: machines.replay_trace(c_, CeilingChecker))
     return rec
